@@ -286,7 +286,15 @@ class Ctx:
         return self.tier == 'quick' and not self.escalated
 
     def n(self, quick, thorough):
-        return quick if self.quick else thorough
+        if self.quick:
+            return quick
+        if self.tier == 'quick' and isinstance(quick, (int, float)) and isinstance(thorough, (int, float)) \
+                and not isinstance(quick, bool) and quick > 0 and thorough > 0:
+            # quick tier escalated by a broken secondary tie: an intermediate depth (geometric mean), so that the check still
+            # answers in minutes; the thorough tier keeps its full depth
+            g = (quick * thorough) ** 0.5
+            return int(round(g)) if isinstance(quick, int) and isinstance(thorough, int) else g
+        return thorough
 
     def subrng(self, *key):
         return self.np.random.default_rng([self.seed, int(self.pid[1:])] + [int(k) for k in key])
